@@ -275,8 +275,17 @@ pub fn drive_corpus(corpus: &str, seed: u64, thorough: bool, w: &mut NdWriter) -
     // (f) contextual patterns: the site's text (with holes) is left inside the text of an enclosing node and the
     // pattern is Pattern::contextual(context, selector = kind of the site).  The case is kept when, in the recorder's
     // own parse of the context, the first node of that kind in document order is the site itself.
+    // nodes with exactly one child (statement wrappers, `argument`, `block_node`, ...) can be selected as well
+    let wrappers: Vec<N> = all_nodes(&g)
+      .into_iter()
+      .filter(|n| {
+        let t = n.get_ts_node();
+        n.is_named() && t.child_count() == 1 && !mrec::has_error_or_missing(&t) && proj::count_nodes(&t) <= 70 && !n.text().contains('$') && n.parent().is_some()
+          && n.parent().map(|p| p.range() != n.range()).unwrap_or(false)
+      })
+      .collect();
     for i in 0..per_file_ctx {
-      let site = rng.pick(&sites).clone();
+      let site = if i % 3 == 2 && !wrappers.is_empty() { rng.pick(&wrappers).clone() } else { rng.pick(&sites).clone() };
       let mut anc = match site.parent() { Some(a) => a, None => continue };
       if i % 2 == 1 {
         if let Some(a2) = anc.parent() {
